@@ -656,8 +656,8 @@ Lemma passes_nonvacuous :
 Proof. vm_compute. repeat split; try reflexivity; discriminate. Qed.
 
 (* ------------------------------------------------------------------ pass 3 (constant evaluator): the guards are necessary.
-   NO soundness theorem is proved for [ceval] (see the report): its model is tied to the source by the AST
-   correspondence only; these witnesses refute the three pre-fix variants. *)
+   These witnesses refute the three pre-fix variants; the soundness of [ceval] with all guards on is proved in
+   Passes_CEval_C01.v / Passes_CEvalFn_C01.v (with the refutation of the fourth variant, operands judged inside). *)
 Definition off_rest_used := {| flatten_checks_outer_rest := true; flatten_checks_inner_rest := true; flatten_checks_operand_ids := true;
      plain_let_skips_short_calls := true; plain_let_builds_const_list := true; prune_if_quote_false_is_false := true;
      consteval_checks_rest_is_used := false; consteval_checks_surplus_operands := true; consteval_emits_value := true;
